@@ -57,6 +57,9 @@ class Scratch:
         return os.path.join(self.dir, *p)
 
     def cleanup(self):
+        if os.environ.get("VERIF_KEEP_SCRATCH"):
+            log("scratch kept: %s" % self.dir)
+            return
         shutil.rmtree(self.dir, ignore_errors=True)
 
 
@@ -222,6 +225,9 @@ def replay(harness, cases_path, results_path, nworkers=NCPU, limit="5s", extra_a
                 crashed = json.loads(share[len(got)])
                 msg = err.decode(errors="replace")
                 head = "\n".join(msg.splitlines()[:6])
+                # (the frames that tell where the engine was: kept next to the results for the triage)
+                with open(results_path + ".crash%d.txt" % i, "w") as cf:
+                    cf.write(msg[:20000])
                 results.append(dict(prop=crashed.get("prop"), key=crashed.get("key"), tags=crashed.get("tags"), **{"pass": False},
                                     runs=len(crashed.get("runs") or []), src="(process died)",
                                     fails=[dict(run="", why="crash", got=head[:600], want="", src="")]))
